@@ -150,6 +150,15 @@ class Net:
             raise Hang([f"livelock: more than {self.max_events} network operations in one scenario"])
         e = {"n": len(self.ledger), "op": op, "sock": None if sock is None else sock.id}
         e.update(kw)
+        pool = getattr(self, "pool", None)
+        if pool is not None:
+            # sync pool: is the pool's thread lock held while this network operation is issued?
+            inner = getattr(getattr(pool, "_optional_thread_lock", None), "_lock", None)
+            if inner is not None and hasattr(inner, "locked") and inner.locked():
+                e["under_pool_lock"] = True
+                d = getattr(pool, "_discipline", None)
+                if d is not None:
+                    d.io_under_lock.append(op)
         self.ledger.append(e)
         if self.on_event is not None:
             self.on_event(e)
